@@ -24,7 +24,7 @@ members to typed unknowns true of the replaced part.
 import CtyModel.Props.C11
 import CtyModel.Lemmas.CoversWeaken
 import CtyModel.Lemmas.C12Funcs
-import CtyModel.Lemmas.d12bKeys
+import CtyModel.Lemmas.d12bReverse
 namespace CtyModel
 namespace C12
 open Fn Std
@@ -468,6 +468,68 @@ theorem sound_keys (o w r : Value) (hk : o.whollyKnown = true) (hwf : Ty.wf w.ty
     (fun hp _ => D12b.keys_implSound o w (D12b.ty_kept_of_passes_nodyn (spec := Stdlib.keysSpec) rfl hp hty)
       hmw hmo (C12L.whollyKnown_isKnown hk) hc) hr
 
+/-- what `coalesce` needs of `convert.Convert` (a parameter of the model, `Env.convert`): converting a
+weakening (same type, known at the top) of a value succeeds when converting the value does, to a result of
+the same type that admits the concrete one (property C08 proves this of the conversion model) -/
+def EnvConvertSound := D12b.EnvConvertSound
+/-- every weakened argument has the type of the argument it weakens -/
+def TyKeptS := D12b.TyKeptS
+
+/-- **`coalesce`** (variadic, `AllowUnknown`, `AllowDynamicType`, `AllowNull`): the first non-null argument
+converted to the unified type; an unknown argument met first gives the unknown of that type; a known argument
+of the unified type is returned with its unknown members.  `TyKeptS`: argument types kept (`cty.DynamicVal`
+changes the input of `convert.UnifyUnsafe`, which is a parameter here: searched). -/
+theorem sound_coalesce (E : Stdlib.Env) (hE : EnvConvertSound E) (os ws : List Value) (r : Value)
+    (hk : ∀ a ∈ os, a.whollyKnown = true)
+    (hmo : ∀ a ∈ os, a.containsMarked = false) (hmw : ∀ a ∈ ws, a.containsMarked = false)
+    (hTw : ∀ t, Stdlib.coalesceType E ws = .ok t → Ty.wf t = true)
+    (hcov : coversAll ws os = true) (hty : TyKeptS ws os) (hrwf : Ty.wf r.ty = true) (hrefl : Covers r r = true)
+    (hr : (callUnrefined Stdlib.coalesceSpec (Stdlib.coalesceType E) (Stdlib.coalesceImpl E) os).1 = .ok r) :
+    ∃ r', (callUnrefined Stdlib.coalesceSpec (Stdlib.coalesceType E) (Stdlib.coalesceImpl E) ws).1 = .ok r' ∧
+      Covers r' r = true :=
+  impl_soundness_lifts_to_call _ _ _ os ws r
+    (fun _ => D12b.typeMonoAt_of_eq (D12b.coalesceType_eq E hty)) hTw
+    (fun a ha => C12L.whollyKnown_isKnown (hk a ha)) hmo hmw hcov
+    (D12b.TyKeptU.toTyKept (D12b.TyKeptS.toU hty)) hrwf hrefl
+    (fun _ _ => D12b.coalesce_implSound E hE os ws hcov hty hmo hmw) hr
+
+/-- **`reverse`**: a list or tuple known at the top whose members are weakened is reversed member by member; a
+set holding an unknown member has no iteration order yet and the answer is the unknown list (/repo 54de46d).
+(`hset`: a set argument is weakened in a member, or not at all.) -/
+theorem sound_reverse (E : Stdlib.Env) (o w r : Value) (hk : o.whollyKnown = true) (hwf : Ty.wf w.ty = true)
+    (hmo : o.containsMarked = false) (hmw : w.containsMarked = false)
+    (hty : w.ty = o.ty ∨ w.ty.isDyn = true) (hc : CoversX w o = true)
+    (hset : Stdlib.isSetTy o.ty = true → w.whollyKnown = false ∨ w = o)
+    (hrwf : Ty.wf r.ty = true) (hrefl : Covers r r = true)
+    (hr : (callUnrefined Stdlib.reverseSpec Stdlib.reverseType (Stdlib.reverseImpl E) [o]).1 = .ok r) :
+    ∃ r', (callUnrefined Stdlib.reverseSpec Stdlib.reverseType (Stdlib.reverseImpl E) [w]).1 = .ok r' ∧
+      Covers r' r = true :=
+  impl_soundness_lifts_to_call _ _ _ [o] [w] r
+    (fun hp => D12b.typeMonoAt_of_eq
+      (D12b.reverseType_eq (D12b.ty_kept_of_passes_nodyn (spec := Stdlib.reverseSpec) rfl hp hty)))
+    (fun _ ht => D12b.reverseType_wf hwf ht)
+    (by simpa using C12L.whollyKnown_isKnown hk) (by simpa using hmo) (by simpa using hmw)
+    (one_arg_cover hc) ⟨hty, trivial⟩ hrwf hrefl
+    (fun hp hri => D12b.reverse_implSound E o w (D12b.ty_kept_of_passes_nodyn (spec := Stdlib.reverseSpec) rfl hp hty)
+      hmw hmo (D12b.known_of_reaches1 (spec := Stdlib.reverseSpec) rfl hri) hc hset) hr
+
+/-- **`values`**: the element values of a map or object known at the top, weakened or not, in key order -/
+theorem sound_values (E : Stdlib.Env) (o w r : Value) (hk : o.whollyKnown = true) (hwf : Ty.wf w.ty = true)
+    (hmo : o.containsMarked = false) (hmw : w.containsMarked = false)
+    (hty : w.ty = o.ty ∨ w.ty.isDyn = true) (hc : CoversX w o = true)
+    (hrwf : Ty.wf r.ty = true) (hrefl : Covers r r = true)
+    (hr : (callUnrefined Stdlib.valuesSpec Stdlib.valuesType (Stdlib.valuesImpl E) [o]).1 = .ok r) :
+    ∃ r', (callUnrefined Stdlib.valuesSpec Stdlib.valuesType (Stdlib.valuesImpl E) [w]).1 = .ok r' ∧
+      Covers r' r = true :=
+  impl_soundness_lifts_to_call _ _ _ [o] [w] r
+    (fun hp => D12b.typeMonoAt_of_eq
+      (D12b.valuesType_eq (D12b.ty_kept_of_passes_nodyn (spec := Stdlib.valuesSpec) rfl hp hty)))
+    (fun _ ht => D12b.valuesType_wf hwf ht)
+    (by simpa using C12L.whollyKnown_isKnown hk) (by simpa using hmo) (by simpa using hmw)
+    (one_arg_cover hc) ⟨hty, trivial⟩ hrwf hrefl
+    (fun hp hri => D12b.values_implSound E o w (D12b.ty_kept_of_passes_nodyn (spec := Stdlib.valuesSpec) rfl hp hty)
+      hmw hmo (D12b.known_of_reaches1 (spec := Stdlib.valuesSpec) rfl hri) hc) hr
+
 /-! ### the hypotheses are satisfiable -/
 
 example : TypeMonoW (C11.staticType (.list .string)) := static_typeMonoW _
@@ -509,6 +571,88 @@ example : Covers ⟨.list .bool, .unk (.coll .u 1 3)⟩ ⟨.list .bool, .seq [.b
 /-- a numeric collapse: bounds `[2, 2]` become the known number 2, which still admits 2 -/
 example : Stdlib.refineNN ⟨.number, .unk (.num .u (some ⟨.fin false 2 0 64, true⟩) (some ⟨.fin false 2 0 64, true⟩))⟩ =
     some (.n (.fin false 2 0 64)) := by rfl
+
+/-! ### d12b: joint witnesses for the per-function theorems (every hypothesis discharged on a concrete,
+non-trivial pair; the conclusion is then an instance of the theorem) -/
+
+def exL : Value := ⟨.list .string, .seq [.s "a", .s "b"]⟩
+/-- `["a", "b"]` with the first element unknown -/
+def exLw : Value := ⟨.list .string, .seq [.unk .unref, .s "b"]⟩
+/-- `["a", "b"]` as an unknown list of 1 to 3 elements -/
+def exLu : Value := ⟨.list .string, .unk (.coll .f 1 3)⟩
+def exM : Value := ⟨.map .number, .smap ["k", "l"] [.n (.fin false 1 0 64), .n (.fin false 1 1 64)]⟩
+def exMw : Value := ⟨.map .number, .smap ["k", "l"] [.unk (.num .f (some ⟨.fin false 1 0 64, true⟩) none), .n (.fin false 1 1 64)]⟩
+def exS : Value := ⟨.set .number, .sset [1, 2] [.n (.fin false 1 0 64), .n (.fin false 1 1 64)]⟩
+def exSw : Value := ⟨.set .number, .sset [0, 2] [.unk .unref, .n (.fin false 1 1 64)]⟩
+
+example : ∃ r', (callUnrefined Stdlib.lengthSpec Stdlib.lengthType Stdlib.lengthImpl [exLw]).1 = .ok r' ∧
+    Covers r' (Value.intVal 2) = true :=
+  sound_length exL exLw (Value.intVal 2) (by decide) (by decide) (by decide) (by decide) (by decide)
+    (by intro h; cases h) (by decide) (Or.inl rfl) (by decide) (by decide) (by rfl)
+example : ∃ r', (callUnrefined Stdlib.lengthSpec Stdlib.lengthType Stdlib.lengthImpl [exLu]).1 = .ok r' ∧
+    Covers r' (Value.intVal 2) = true :=
+  sound_length exL exLu (Value.intVal 2) (by decide) (by decide) (by decide) (by decide) (by decide)
+    (by intro h; cases h) (by decide) (Or.inl rfl) (by decide) (by decide) (by rfl)
+/-- a set holding an unknown member: the length is the range `[1, 2]` -/
+example : ∃ r', (callUnrefined Stdlib.lengthSpec Stdlib.lengthType Stdlib.lengthImpl [exSw]).1 = .ok r' ∧
+    Covers r' (Value.intVal 2) = true :=
+  sound_length exS exSw (Value.intVal 2) (by decide) (by decide) (by decide) (by decide) (by decide)
+    (by intro h; cases h) (by decide) (Or.inl rfl) (by decide) (by decide) (by rfl)
+/-- `cty.DynamicVal` for the list -/
+example : ∃ r', (callUnrefined Stdlib.lengthSpec Stdlib.lengthType Stdlib.lengthImpl [Value.dynVal]).1 = .ok r' ∧
+    Covers r' (Value.intVal 2) = true :=
+  sound_length exL Value.dynVal (Value.intVal 2) (by decide) (by decide) (by decide) (by decide) (by decide)
+    (by intro _; rfl) (by decide) (Or.inr rfl) (by decide) (by decide) (by rfl)
+
+example : ∃ r', (callUnrefined Stdlib.compactSpec Stdlib.compactType (Stdlib.compactImpl {}) [exLw]).1 = .ok r' ∧
+    Covers r' exL = true :=
+  sound_compact {} exL exLw exL (by decide) (by decide) (by decide) (by decide) (Or.inl rfl) (by decide)
+    (by decide) (by decide) (by rfl)
+example : ∃ r', (callUnrefined Stdlib.distinctSpec Stdlib.distinctType (Stdlib.distinctImpl {}) [exLw]).1 = .ok r' ∧
+    Covers r' exL = true :=
+  sound_distinct {} exL exLw exL (by decide) (by decide) (by decide) (by decide) (by decide) (Or.inl rfl) (by decide)
+    (by decide) (by decide) (by rfl)
+
+/-- `coalescelist([], ["a","b"])` with the second list partly unknown, and with the first list unknown -/
+example : ∃ r', (callUnrefined Stdlib.coalesceListSpec Stdlib.coalesceListType Stdlib.coalesceListImpl
+      [⟨.list .string, .seq []⟩, exLw]).1 = .ok r' ∧ Covers r' exL = true :=
+  sound_coalescelist [⟨.list .string, .seq []⟩, exL] [⟨.list .string, .seq []⟩, exLw] exL (by decide) (by decide) (by decide)
+    (by decide) (by decide) ⟨Or.inl rfl, Or.inl rfl, trivial⟩ (by decide) (by decide) (by rfl)
+example : ∃ r', (callUnrefined Stdlib.coalesceListSpec Stdlib.coalesceListType Stdlib.coalesceListImpl
+      [⟨.list .string, .unk (.coll .f 0 0)⟩, exL]).1 = .ok r' ∧ Covers r' exL = true :=
+  sound_coalescelist [⟨.list .string, .seq []⟩, exL] [⟨.list .string, .unk (.coll .f 0 0)⟩, exL] exL (by decide) (by decide)
+    (by decide) (by decide) (by decide) ⟨Or.inl rfl, Or.inl rfl, trivial⟩ (by decide) (by decide) (by rfl)
+
+/-- `keys` of a map with an unknown element value, and of an unknown map -/
+example : ∃ r', (callUnrefined Stdlib.keysSpec Stdlib.keysType Stdlib.keysImpl [exMw]).1 = .ok r' ∧
+    Covers r' ⟨.list .string, .seq [.s "k", .s "l"]⟩ = true :=
+  sound_keys exM exMw ⟨.list .string, .seq [.s "k", .s "l"]⟩ (by decide) (by decide) (by decide) (by decide) (Or.inl rfl)
+    (by decide) (by decide) (by decide) (by rfl)
+example : ∃ r', (callUnrefined Stdlib.keysSpec Stdlib.keysType Stdlib.keysImpl [⟨.map .number, .unk (.coll .f 2 2)⟩]).1 = .ok r' ∧
+    Covers r' ⟨.list .string, .seq [.s "k", .s "l"]⟩ = true :=
+  sound_keys exM ⟨.map .number, .unk (.coll .f 2 2)⟩ ⟨.list .string, .seq [.s "k", .s "l"]⟩ (by decide) (by decide) (by decide)
+    (by decide) (Or.inl rfl) (by decide) (by decide) (by decide) (by rfl)
+
+/-- `values` of the map with an unknown (bounded) element -/
+example : ∃ r', (callUnrefined Stdlib.valuesSpec Stdlib.valuesType (Stdlib.valuesImpl {}) [exMw]).1 = .ok r' ∧
+    Covers r' ⟨.list .number, .seq [.n (.fin false 1 0 64), .n (.fin false 1 1 64)]⟩ = true :=
+  sound_values {} exM exMw ⟨.list .number, .seq [.n (.fin false 1 0 64), .n (.fin false 1 1 64)]⟩ (by decide) (by decide)
+    (by decide) (by decide) (Or.inl rfl) (by decide) (by decide) (by decide) (by rfl)
+
+/-- `reverse` of the partly unknown list, and of a set holding an unknown member -/
+example : ∃ r', (callUnrefined Stdlib.reverseSpec Stdlib.reverseType (Stdlib.reverseImpl {}) [exLw]).1 = .ok r' ∧
+    Covers r' ⟨.list .string, .seq [.s "b", .s "a"]⟩ = true :=
+  sound_reverse {} exL exLw ⟨.list .string, .seq [.s "b", .s "a"]⟩ (by decide) (by decide) (by decide) (by decide) (Or.inl rfl)
+    (by decide) (by intro h; cases h) (by decide) (by decide) (by rfl)
+
+/-- the conversion law holds of an environment that converts nothing (`coalesce` of arguments of one type
+never converts) -/
+example : EnvConvertSound {} := by intro o w t r _ _ _ h; cases h
+example : ∃ r', (callUnrefined Stdlib.coalesceSpec (Stdlib.coalesceType { unify := fun ts => .ok ts.head? })
+      (Stdlib.coalesceImpl { unify := fun ts => .ok ts.head? }) [⟨.list .string, .null⟩, exLw]).1 = .ok r' ∧ Covers r' exL = true :=
+  sound_coalesce { unify := fun ts => .ok ts.head? } (by intro o w t r _ _ _ h; cases h)
+    [⟨.list .string, .null⟩, exL] [⟨.list .string, .null⟩, exLw] exL (by decide) (by decide) (by decide)
+    (by intro t h; cases h; rfl) (by decide) ⟨rfl, rfl, trivial⟩ (by decide) (by decide) (by rfl)
 
 end C12
 end CtyModel
